@@ -34,7 +34,7 @@ ASSUMPTIONS = ["Fraction(float) is the exact value of a double; Python str order
                "complex numbers: == judged exactly on (re, im); ordering may raise or must follow the (re, im) pair order",
                "ties: min/max/sort may return any of several equal (==) elements; stability is not required",
                "== / != between different kinds are not judged (only the ordering operators must raise)"]
-PLAN = {"quick": {"matrix": 1, "triples": 12000, "near": 12000, "sort": 5000, "seqs": 10000, "kinds": 1},
+PLAN = {"quick": {"matrix": 1, "triples": 36000, "near": 36000, "sort": 15000, "seqs": 30000, "kinds": 1},
         "thorough": {"matrix": 1, "triples": 0, "cube": 1, "near": 250000, "sort": 100000, "seqs": 200000, "kinds": 1}}
 EXHAUSTIVE = {"quick": True, "thorough": True}
 
